@@ -25,7 +25,7 @@ import types as pytypes
 from .. import cli
 
 PID = "C19"
-BORROW = ["pv.corpora.c02", "pv.corpora.c03", "pv.corpora.c04", "pv.corpora.c05", "pv.corpora.c06", "pv.corpora.c07", "pv.corpora.c08", "pv.corpora.c17", "pv.corpora.c18"]
+BORROW = ["pv.corpora.c19x", "pv.corpora.c02", "pv.corpora.c03", "pv.corpora.c04", "pv.corpora.c05", "pv.corpora.c06", "pv.corpora.c07", "pv.corpora.c08", "pv.corpora.c17", "pv.corpora.c18"]
 
 
 def fake_dbapi(name):
